@@ -29,6 +29,9 @@ var c06Offers = []offer{
 	// a parenthesised expression is one value: a grouped void or multi-value call is never one
 	{"void-grouped", []string{"(fv())", "((fv()))"}},
 	{"multi-grouped", []string{"(f2())"}},
+	// a program call yields three values (stdout, stderr, status); in round brackets it is still not one value
+	{"multi3", []string{`@echo("a")`}},
+	{"multi3-grouped", []string{`(@echo("a"))`, `((@pwd()))`}},
 }
 
 const c06Prelude = `vi := 1
@@ -365,6 +368,9 @@ func c06Cells(thorough bool) []c06Cell {
 	for _, p := range c06Positions() {
 		for _, o := range c06Offers {
 			if contains(p.excluded, o.typ) || contains(p.excluded, strings.TrimSuffix(o.typ, "-grouped")) {
+				continue
+			}
+			if strings.HasPrefix(o.typ, "multi3") && contains(p.excluded, "multi") {
 				continue
 			}
 			forms := o.forms
